@@ -123,19 +123,27 @@ PROPS = {
                 note="Trusted: numpy array/where/sum/slicing contracts (DESIGN 3), codes_of definition.",
                 technique="postcondition of set_vt against vt_spec + edit lemmas + bounded exhaustive short strands"),
     "C08": dict(title="Repair recovers the original strand for separated interior edits", level="other", bounded=["C08"], design="8/C08",
-                proof=["dsw.spiderweb.repair_dna#detect", "dsw.operation.dna_to_number#int", "lemma.walk_dead", "lemma.pv_bound", "lemma.ipow_mono"],
+                proof=["dsw.spiderweb.repair_dna#detect", "dsw.graphized.path_matching#subst", "dsw.graphized.path_matching#indel", "dsw.operation.dna_to_number#int",
+                       "lemma.walk_dead", "lemma.pv_bound", "lemma.ipow_mono"],
                 explanation="PROVED (partial contract on the real repair_dna, ending with its scan loop): for EVERY A/C/G/T strand at least one window long, every "
                             "coding graph and start vertex, the scan loop's error counter leaves 0 exactly when the strand is not a walk of the graph from the "
                             "start vertex (invariant: counter 0 => the current vertex is the walk's; counter > 0 => the whole strand is not a walk, by the "
-                            "dead-prefix lemma) - the detection sentence of the property, for any number of edits.  BOUNDED ONLY: the end-to-end recovery claim "
+                            "dead-prefix lemma) - the detection sentence of the property, for any number of edits.  PROVED on the real path_matching (both settings of "
+                            "indel handling; every chunk, graph, previous vertex and position inside the chunk): every fragment it returns is tagged with the "
+                            "given position and is exactly one substitution (by a nucleotide different from the original), one insertion or one deletion "
+                            "of the chunk at that position, and the part of the chunk after the edit is a walk from the previous vertex through the tried "
+                            "arc (element invariant of the result list, three walk-loop invariants); it raises nothing.  BOUNDED ONLY: completeness of "
+                            "path_matching (no walkable edit is missing) and the end-to-end recovery claim "
                             "(the original walk is among the candidates when detected errors = edits, also with its check supplied; substitutions with indel "
                             "handling off): a whole-protocol argument across the scan loop, the look-back window and path_matching that this prover does not "
-                            "carry (DESIGN 8/C08); path_matching itself (lists of nested tuples built through filter / lambda) is not under contract.",
-                demoted=["recovery of the original walk (membership in the candidate list) - bounded B2", "path_matching - bounded B2 (through repair_dna)",
+                            "carry (DESIGN 8/C08).",
+                demoted=["recovery of the original walk (membership in the candidate list) - bounded B2",
+                         "completeness of path_matching (every walkable single edit is returned) - bounded B2 (through repair_dna)",
                          "the reported statistic is 0 on the fall-back exit even when the scan loop detected errors - bounded B2 observes the returned value"],
-                claim="Mixed: the detection clause is deductive at the scan loop; recovery is bounded (every single edit per walk, seeded separated edit sets).",
+                claim="Mixed: the detection clause (scan loop) and the soundness of every repair fragment (path_matching) are deductive; recovery is bounded (every single "
+                      "edit per walk, seeded separated edit sets).",
                 note="Trusted: numpy where / list-comprehension-over-indices contracts as C06; the three bookkeeping lists of the scan loop are opaque.",
-                technique="scan-loop invariant (detected <=> not a walk) + bounded run-time contract checking (every single edit per walk)"),
+                technique="scan-loop invariant (detected <=> not a walk) + element invariant on path_matching's result + bounded run-time contract checking (every single edit per walk)"),
     "C09": dict(title="Repair leaves clean strands alone; candidates check-consistent", level="proof", bounded=["C09"], design="8/C09",
                 proof=["dsw.spiderweb.repair_dna#clean", "dsw.spiderweb.repair_dna#clean-vt", "dsw.spiderweb.repair_dna#candidates",
                        "dsw.spiderweb.repair_dna#candidates-vt", "dsw.spiderweb.set_vt", "dsw.operation.number_to_dna#int", "dsw.operation.dna_to_number#int",
